@@ -5,6 +5,7 @@ use taskchampion_sync_server_core::*;
 use uuid::Uuid;
 
 mod http;
+mod imem;
 
 /// C12: drive the private urgency kernels through the public API on the real in-memory backend.
 fn urgency(kernel: &str, target: i128, measure: i128) -> String {
@@ -83,6 +84,11 @@ fn main() {
             let txt = std::fs::read_to_string(&args[2]).expect("replay file");
             let j: serde_json::Value = serde_json::from_str(&txt).expect("json");
             println!("{}", http::replay(&j));
+        }
+        Some("imem") => {
+            let txt = std::fs::read_to_string(&args[2]).expect("replay file");
+            let j: serde_json::Value = serde_json::from_str(&txt).expect("json");
+            println!("{}", imem::replay(&j));
         }
         _ => {
             eprintln!("usage: vreplay urgency <versions|days> <target> <measure> | vreplay k <scenario> <file>");
